@@ -13,6 +13,11 @@ A caller with "retry": true whose operation fails with an exception re-opens the
 (channel.close(), transport.open(), channel.open(): what Driver.close / Driver.open do) and runs the operation once more.
 faults: raise|boom (k-th transport call of the caller raises), timeout / timeout_lockwait / timeout_stuck,
 cancel / cancel_lockwait (asyncio: the caller's task is cancelled at its k-th transport call / in the lock queue).
+duration (the caller's read_duration runs out while the device is silent: see c19_sched "Durations").
+"busy": [cmd, ...]: commands that keep the device busy -- it prints their output and no prompt ("tail log"), and goes on
+answering what is typed next.  A send_input_and_read caller with "duration": seconds reads for that long (default: for ever);
+a send_inputs_interact caller with "complete": [patterns] passes them as interaction_complete_patterns.
+run_scenario(..., order=[callers]) runs the callers one after the other in that order (the sequential reference run).
 "commandeer": {"a_lock": bool, "b_lock": bool, "on": "A"|"B"}: a two-connection history (see _commandeered); `lock` is
 the channel_lock the callers' connection was BUILT with."""
 import logging
@@ -20,6 +25,23 @@ import unittest.mock
 
 from . import c19_sched as S
 from .simdevice import SimDevice
+
+class BusyDevice(SimDevice):
+    """SimDevice + commands that keep the device busy: their output is printed, the prompt is not"""
+
+    busy = ()
+
+    def _return(self):
+        line = bytes(self.line).decode("latin-1").strip()
+        if self.dialog is None and line in self.busy:
+            raw, self.line = bytes(self.line), bytearray()
+            out = self.outputs.get(line, b"")
+            self.log.append((self.mode, raw, out))
+            self.marks.append((len(self.plain), "cmd"))
+            self._emit(self.nl + out.replace(b"\n", self.nl) + self.nl)
+            return
+        SimDevice._return(self)
+
 
 PROMPT_PATTERN = r"^[a-z0-9.\-@()/:]{1,48}[#>$]\s*$"
 
@@ -104,7 +126,7 @@ def _call(ch, spec):
         return ch.send_input(channel_input=spec["cmd"], strip_prompt=spec.get("strip", True))
     if op == "send_input_and_read":
         return ch.send_input_and_read(channel_input=spec["cmd"], expected_outputs=spec.get("expected"),
-                                      read_duration=100000.0)
+                                      read_duration=float(spec.get("duration", 100000.0)))
     if op == "send_inputs_interact":
         return ch.send_inputs_interact(interact_events=[tuple(e) for e in spec["events"]],
                                        interaction_complete_patterns=spec.get("complete"))
@@ -132,19 +154,29 @@ class _Multi:
     """chooser counting only real decision points (those with more than one option)"""
 
 
-def run_scenario(scn, choices=(), max_steps=4000):
+def run_scenario(scn, choices=(), max_steps=4000, order=None):
     from scrapli.settings import Settings
     import scrapli.decorators as deco
+    import scrapli.channel.sync_channel as sync_mod
+    import scrapli.channel.async_channel as async_mod
 
     stack = scn["stack"]
-    dev = SimDevice(platform="generic", host=scn.get("host", "router1"),
-                    outputs={k: v.encode("latin-1") for k, v in scn.get("outputs", {}).items()})
+    dev = BusyDevice(platform="generic", host=scn.get("host", "router1"),
+                     outputs={k: v.encode("latin-1") for k, v in scn.get("outputs", {}).items()})
+    dev.busy = set(scn.get("busy", ()))
     if scn.get("silent_after") is not None:
         # the device goes silent after that many bytes of output (counted after the first prompt)
         dev.silent_after = len(dev.t["prompt"](dev, dev.mode)) + scn["silent_after"]
     wire = S.Wire(dev, scn.get("chunk", 0))
     n = len(scn["callers"])
     chooser = make_chooser(list(choices))
+    if order is not None:
+        def chooser(step, opts):
+            # one caller after the other: the first caller of `order` that is not through makes every step
+            for c in order:
+                if not sched.main_done(c):
+                    return ([i for i, (a, _) in enumerate(opts) if sched.owner(a) == c] or [0])[0]
+            return 0
     cls = S.ThreadSched if stack == "sync" else S.TaskSched
     sched = cls(n, wire, scn.get("faults", []), chooser, max_steps=max_steps)
     mk = S.make_sync_transport if stack == "sync" else S.make_async_transport
@@ -238,6 +270,10 @@ def run_scenario(scn, choices=(), max_steps=4000):
     saved_level, saved_prop = root.level, root.propagate
     root.setLevel(logging.CRITICAL + 10)
     wedged = None
+    chan_mod = sync_mod if stack == "sync" else async_mod
+    saved_time = getattr(chan_mod, "time", None)
+    if saved_time is not None:
+        chan_mod.time = S.SchedClock(sched)     # (the channel's time.time() is the scheduler's virtual clock)
     try:
         if stack == "sync":
             starters = [sync_starter(c, spec) for c, spec in enumerate(scn["callers"])]
@@ -251,6 +287,8 @@ def run_scenario(scn, choices=(), max_steps=4000):
     except S.Wedged as e:
         wedged = str(e)
     finally:
+        if saved_time is not None:
+            chan_mod.time = saved_time
         Settings.NO_TERMINATE_ON_TIMEOUT = saved_nt
         root.setLevel(saved_level)
         root.propagate = saved_prop
